@@ -155,7 +155,8 @@ def main():
             sys.exit(1)
         sys.exit(0)
     pid = a.prop
-    mod = importlib.import_module("props." + pid)
+    from props import registry, defs  # noqa
+    mod = registry.get(pid)
     if a.replay:
         data = json.load(open(a.replay))
         v = mod.replay(data)
